@@ -42,7 +42,7 @@ class Ty:
         return hash(self.kind)
 
     def __repr__(self):
-        return self.kind + ("(%r)" % self.arg if hasattr(self, "arg") else "")
+        return self.kind + ("(%r)" % (self.arg,) if hasattr(self, "arg") else "")      # [srcloop] arg may be a tuple
 
 
 INT, BOOL, STR, NONE = Ty("int"), Ty("bool"), Ty("str"), Ty("none")
@@ -144,7 +144,9 @@ class Ext:
                attribute assignments: effects and re-bindings)
       fact_test f(fn, g, t, env, kt, kf) -> text      (truthiness test of a value whose Ty carries a `fact` attribute:
                a Boolean local holding the outcome of an isinstance test; used by the monadic backend pygal_m.py)
-      raise_   Gallina text of "an exception left the function" for the declared return type"""
+      raise_   Gallina text of "an exception left the function" for the declared return type
+      binop    {(ast operator name, left kind, right kind): (template with two %s, result Ty)}     [srcloop]
+      expr     f(fn, node, env) -> (g, Ty) | None     expression nodes the core does not know (consulted last)   [srcloop]"""
 
     def __init__(self, **kw):
         self.calls, self.methods, self.attrs, self.compare, self.truthy = {}, {}, {}, {}, {}
@@ -195,6 +197,9 @@ def tr_expr(fn, node, env):
                ("Add", "timedelta", "timedelta"): ("(%s + %s)", TD), ("Sub", "timedelta", "timedelta"): ("(%s - %s)", TD),
                ("Add", "aware_datetime", "timedelta"): ("(a_add %s %s)", ADT),
                ("Sub", "aware_datetime", "aware_datetime"): ("(a_sub %s %s)", TD)}
+        if (op, ta.kind, tb.kind) in getattr(fn.ext, "binop", {}):       # [srcloop] unit-specific binary operators
+            f, t = fn.ext.binop[(op, ta.kind, tb.kind)]
+            return f % (a, b), t
         if (op, ta.kind, tb.kind) not in tbl:
             _bad("operator %s on %r, %r" % (op, ta, tb), node)
         f, t = tbl[(op, ta.kind, tb.kind)]
@@ -229,6 +234,10 @@ def tr_expr(fn, node, env):
         if any(t != box[0] for t in box):
             _bad("conditional expression with arms of different types %r" % box, node)
         return "(" + text + ")", box[0]
+    if getattr(fn.ext, "expr", None) is not None:       # [srcloop] unit-specific expression forms (e.g. the literal [])
+        r = fn.ext.expr(fn, node, env)
+        if r is not None:
+            return r
     _bad("expression %s" % type(node).__name__, node)
 
 
